@@ -8,6 +8,8 @@ import (
 	"strings"
 	"time"
 
+	"github.com/goghcrow/yae/parser/ast"
+	"github.com/goghcrow/yae/parser/pos"
 	"github.com/goghcrow/yae/simrt"
 	"github.com/goghcrow/yae/types"
 )
@@ -661,10 +663,69 @@ func genCase17(r *rng) *Case17 {
 		c.Y = gr
 		c.Flip = r.chance(0.25)
 	default:
-		c.Mode = "bottom"
-		c.X = g.ty(d, false, false)
-		c.Y = &T17{K: "bot"}
-		c.Flip = r.chance(0.5)
+		if r.chance(0.6) {
+			// infer: a polymorphic function type  fun(params...) ret  applied to ground
+			// argument types through the exported checker entry point (types.Infer):
+			// pattern-vs-ground matching plus application of the substitution
+			c.Mode = "infer"
+			if len(g.vars) == 0 {
+				g.vars = []string{"a1", "b1"}
+			}
+			f := &T17{K: "fun", N: "f"}
+			np := 1 + r.intn(3)
+			for i := 0; i < np; i++ {
+				f.A = append(f.A, g.ty(1+r.intn(3), true, false))
+			}
+			// the result mentions the parameters' variables, often two of them in one object
+			pv := map[string]bool{}
+			for _, a := range f.A {
+				a.vars(pv)
+			}
+			var pvs []string
+			for v := range pv {
+				pvs = append(pvs, v)
+			}
+			sort.Strings(pvs)
+			saved := g.vars
+			if len(pvs) > 0 && r.chance(0.85) {
+				g.vars = pvs
+			}
+			ret := g.ty(1+r.intn(2), true, false)
+			if len(pvs) > 0 && r.chance(0.5) {
+				o := &T17{K: "obj"}
+				for i, n := range []string{"fst", "snd", "trd"}[:2+r.intn(2)] {
+					o.F = append(o.F, n)
+					if i < len(pvs) || r.chance(0.5) {
+						o.A = append(o.A, &T17{K: "var", N: pvs[i%len(pvs)]})
+					} else {
+						o.A = append(o.A, g.ty(1, true, false))
+					}
+				}
+				ret = o
+				if r.chance(0.4) {
+					ret = &T17{K: "list", A: []*T17{o}}
+				}
+			}
+			g.vars = saved
+			f.A = append(f.A, ret)
+			c.X = f
+			args := g.instantiate(&T17{K: "tuple", A: f.A[:np]})
+			switch r.intn(4) {
+			case 0:
+				args = g.mutate17(args)
+			case 1:
+				args = permuteFields(args, r)
+			}
+			if args.K != "tuple" {
+				args = &T17{K: "tuple", A: []*T17{args}}
+			}
+			c.Y = args
+		} else {
+			c.Mode = "bottom"
+			c.X = g.ty(d, false, false)
+			c.Y = &T17{K: "bot"}
+			c.Flip = r.chance(0.5)
+		}
 	}
 	if r.chance(0.4) {
 		g.dupChild(c.X)
@@ -685,7 +746,7 @@ func genCase17(r *rng) *Case17 {
 		g.markShared(c.X)
 		g.markShared(c.Y)
 	}
-	c.Sim = simrt.Config{Seed: r.u64() | 1, MaxSteps: 5_000_000, GCAlloc: []int{0, 0, 8}[r.intn(3)]}
+	c.Sim = simrt.Config{Seed: r.u64() | 1, MaxSteps: 400_000, GCAlloc: []int{0, 0, 8}[r.intn(3)]}
 	return c
 }
 
@@ -748,6 +809,9 @@ func underGC(c *Case17, res *case17Result, f func() string) (string, string, boo
 	var base string
 	r0 := simrt.Run(cfg, func() { base = f() })
 	if p := r0.TaskPanics[0]; p != nil {
+		if simrt.IsAbort(p) {
+			return "nontermination", "nontermination", false
+		}
 		harnessFatal("c17: %v", p)
 	}
 	res.Steps += r0.Steps
@@ -759,6 +823,9 @@ func underGC(c *Case17, res *case17Result, f func() string) (string, string, boo
 	var under string
 	r1 := simrt.Run(cfg, func() { under = f() })
 	if p := r1.TaskPanics[0]; p != nil {
+		if simrt.IsAbort(p) {
+			return base, "nontermination", true
+		}
 		harnessFatal("c17: %v", p)
 	}
 	res.GCs += r1.FaultsFired["gc"]
@@ -841,11 +908,65 @@ func runCase17(c *Case17) case17Result {
 		})
 		exp := fmt.Sprintf("xy=%v yx=%v xx=%v yz=%v xz=%v", want, want, true, true, want)
 		for _, got := range []string{base, under} {
+			if got == "nontermination" {
+				return fail("nontermination", "c17:equals-nontermination", fmt.Sprintf("types.Equals did not return within %d simulated steps", c.Sim.MaxSteps))
+			}
 			if strings.HasPrefix(got, "panic") {
 				return fail("panic", "c17:equals-panic", "types.Equals panicked: "+got)
 			}
 			if got != exp {
 				return fail("law", "c17:equals-law", fmt.Sprintf("Equals is not the structural identity / not an equivalence: got %s, want %s (z = field-permuted y)", got, exp))
+			}
+		}
+	case "infer":
+		f := c.X
+		np := len(f.A) - 1
+		if !f.hasVar() {
+			return res // monomorphic functions are resolved by signature text, not by unification
+		}
+		var want string
+		th := map[string]string{}
+		thT := map[string]*T17{}
+		ok := len(c.Y.A) == np
+		if ok {
+			ok = refMatchT(&T17{K: "tuple", A: f.A[:np]}, c.Y, th, thT)
+		}
+		if ok {
+			r := applyOnce(f.A[np], thT)
+			if r.hasVar() || !keysValid(r) {
+				ok = false // result not concrete, or a map key would have to be a non-primitive type
+			} else {
+				want = "ok " + r.canon()
+			}
+		}
+		if !ok {
+			want = "error"
+		}
+		base, under, _ := underGC(c, &res, func() string {
+			return safeCall(func() string {
+				env := types.NewEnv()
+				env.RegisterFun(mk(f))
+				var args []ast.Expr
+				for i, a := range c.Y.A {
+					name := fmt.Sprintf("x%d", i)
+					env.Put(name, mk(a))
+					args = append(args, ast.Var(name, pos.Unknown))
+				}
+				call := ast.Call(ast.Var("f", pos.Unknown), args, pos.UnknownCol, pos.Unknown)
+				ty, err := types.Infer(call, env)
+				if err != nil {
+					return "error"
+				}
+				return "ok " + fromYae(ty, 0).canon()
+			})
+		})
+		for _, got := range []string{base, under} {
+			if got == "nontermination" {
+				return fail("nontermination", "c17:infer-nontermination", "types.Infer did not return within the step cap")
+			}
+			if got != want {
+				return fail("law", "c17:infer-"+firstWord(got)+"-want-"+firstWord(want),
+					fmt.Sprintf("applying the polymorphic function type %s to argument types %s: checker says %q, reference matcher + substitution says %q", f.canon(), c.Y.canon(), got, want))
 			}
 		}
 	case "unify", "match", "bottom":
@@ -863,6 +984,9 @@ func runCase17(c *Case17) case17Result {
 			i++
 			return o.summary()
 		})
+		if base == "nontermination" || under == "nontermination" {
+			return fail("nontermination", "c17:unify-nontermination", fmt.Sprintf("types.Unify did not return within %d simulated steps on finite, non-recursive types", c.Sim.MaxSteps))
+		}
 		if base != under {
 			return fail("gc", "c17:unify-gc-divergence:"+panicClass(under),
 				fmt.Sprintf("the same Unify call gives different results depending on when the collector runs:\n no GC : %s\n with GC: %s", base, under))
@@ -898,6 +1022,9 @@ func runCase17(c *Case17) case17Result {
 				return fail("law", fmt.Sprintf("c17:match-%v-want-%v", o.OK, want),
 					fmt.Sprintf("pattern vs variable-free type: Unify %s but an instantiation %s (flip=%v)", okWord(o.OK), existsWord(want), c.Flip))
 			}
+			if o.OK && o.Res != gr.canon() {
+				return fail("law", "c17:match-wrong-unifier", fmt.Sprintf("Unify succeeded but returned the type %s, not the matched variable-free type", o.Res))
+			}
 			if o.OK {
 				sp, _ := applyFix(pat, o.raw)
 				if sp.canon() != gr.canon() {
@@ -914,6 +1041,69 @@ func runCase17(c *Case17) case17Result {
 		}
 	}
 	return res
+}
+
+// keysValid: every map key is a primitive type (the type language's rule).
+func keysValid(t *T17) bool {
+	if t.K == "map" {
+		switch t.A[0].K {
+		case "num", "str", "bool", "time":
+		default:
+			return false
+		}
+	}
+	for _, a := range t.A {
+		if !keysValid(a) {
+			return false
+		}
+	}
+	return true
+}
+
+func firstWord(s string) string {
+	if i := strings.IndexByte(s, ' '); i > 0 {
+		return s[:i]
+	}
+	if strings.HasPrefix(s, "panic") {
+		return "panic"
+	}
+	return s
+}
+
+// refMatchT is refMatch that also records the instantiation as terms.
+func refMatchT(p, g *T17, th map[string]string, thT map[string]*T17) bool {
+	if p.K == "var" {
+		c := g.canon()
+		if old, ok := th[p.N]; ok {
+			return old == c
+		}
+		th[p.N] = c
+		thT[p.N] = g
+		return true
+	}
+	if p.K != g.K || len(p.A) != len(g.A) {
+		return false
+	}
+	if p.K == "obj" {
+		for i, n := range p.F {
+			j := -1
+			for k, m := range g.F {
+				if m == n {
+					j = k
+				}
+			}
+			if j < 0 || !refMatchT(p.A[i], g.A[j], th, thT) {
+				return false
+			}
+		}
+		return true
+	}
+	for i := range p.A {
+		if !refMatchT(p.A[i], g.A[i], th, thT) {
+			return false
+		}
+	}
+	return true
 }
 
 func okWord(b bool) string {
